@@ -733,12 +733,26 @@ def run_registrar(ctx) -> RuleResult:
         written = set()
         for loop in loops:
             target_name = loop.target.id if isinstance(loop.target, ast.Name) else None
+            # plain local aliases inside the loop (x = y), e.g. the parameter bindings of an inlined helper
+            alias = {}
+            for node in ast.walk(loop):
+                if isinstance(node, ast.Assign) and len(node.targets) == 1 and isinstance(node.targets[0], ast.Name) \
+                        and isinstance(node.value, ast.Name):
+                    alias[node.targets[0].id] = node.value.id
+
+            def res(name):
+                for _ in range(6):
+                    if name not in alias:
+                        break
+                    name = alias[name]
+                return name
+
             for node in ast.walk(loop):
                 if isinstance(node, ast.Assign) and isinstance(node.targets[0], ast.Subscript):
                     sub = node.targets[0]
-                    if isinstance(sub.value, ast.Name) and isinstance(sub.slice, ast.Name) and sub.slice.id == target_name \
-                            and isinstance(node.value, ast.Name) and node.value.id == fparam:
-                        written.add(sub.value.id)
+                    if isinstance(sub.value, ast.Name) and isinstance(sub.slice, ast.Name) and res(sub.slice.id) == target_name \
+                            and isinstance(node.value, ast.Name) and res(node.value.id) == fparam:
+                        written.add(res(sub.value.id))
         outside = [
             node for node in ast.walk(deco)
             if isinstance(node, ast.Assign) and isinstance(node.targets[0], ast.Subscript)
